@@ -617,7 +617,7 @@ theorem rows_next_step (s : RowsState) :
 syntactic shape of "indexed by a decoded value" — is the reviewed one.  Coverage of the 97 entries:
 `checkSheet` ×3 (`no_panic_load`), `formattedValue` ×2 (`no_panic_styleIndex`), `GetStyle` ×3 (`no_panic_getStyle`),
 `GetComments` (`no_panic_commentAuthor`), `createIV` (`no_panic_agile_validation`), `getImageCellRel` ×2
-(`no_panic_imageCellRel_partial` + two findings), `extractPivotTableFields` `order[field.Fld]` (open finding,
+(`no_panic_imageCellRel`), `extractPivotTableFields` `order[field.Fld]` (open finding,
 outside the battery); all the others index maps (Go maps cannot panic on lookup) keyed by option or
 decoded strings, or belong to writer functions (`add…`, `draw…`, `new…`, `Set…`) driven by API options. -/
 theorem field_index_sites_reviewed :
@@ -632,10 +632,16 @@ theorem field_index_sites_reviewed :
        "picture.go:getImageCellRel: vmd.Bk[*c.Vm-1]", "vml.go:GetComments: cmts.Authors.Author[cmt.AuthorID]",
        "pivotTable.go:extractPivotTableFields: order[field.Fld]"] := by decide
 
-/-- `getImageCellRel`, partial: never panics when the cell's `vm` is at least 1 and the record's `v` is not
-negative (the two guards the function lacks) -/
-theorem no_panic_imageCellRel_partial (vm : Nat) (nBk : Option Nat) (rcLen : Nat → Nat) (v : Int) (nRv : Nat)
-    (h1 : 1 ≤ vm) (h2 : 0 ≤ v) : (imageCellRel vm nBk rcLen v nRv).isPanic = false := by
+/-- the two guards of `getImageCellRel` -/
+theorem guards_imageCell :
+    "vmd == nil || *c.Vm < 1 || int(*c.Vm) > len(vmd.Bk) || len(vmd.Bk[*c.Vm-1].Rc) == 0" ∈ Facts.C14.conds_getImageCellRel ∧
+    "richValueIdx < 0 || richValueIdx >= len(richValue.Rv)" ∈ Facts.C14.conds_getImageCellRel := by decide
+
+/-- `getImageCellRel`, full strength: for EVERY `vm` attribute (0, beyond the block list), every number of
+metadata blocks and records, every rich value index (negative, beyond the list) the function ends in
+"not an image cell" or a selected rich value -/
+theorem no_panic_imageCellRel (vm : Nat) (nBk : Option Nat) (rcLen : Nat → Nat) (v : Int) (nRv : Nat) :
+    (imageCellRel vm nBk rcLen v nRv).isPanic = false := by
   unfold imageCellRel
   cases nBk with
   | none => rfl
@@ -652,16 +658,12 @@ theorem no_panic_imageCellRel_partial (vm : Nat) (nBk : Option Nat) (rcLen : Nat
     · omega
     split; · rfl
     rename_i hv
-    rw [inRange_of h2 (by omega)]
+    rw [inRange_of (by omega) (by omega)]
     rfl
 
-/-- finding: `vm="0"` wraps the unsigned subtraction and indexes the block list with 2^64-1 -/
-theorem finding_imageCell_vm_zero : (imageCellRel 0 (some 1) (fun _ => 1) 0 1).isPanic = true := by
-  decide +kernel
-
-/-- finding: a negative `v` in the value-metadata record passes `richValueIdx >= len(…)` and indexes the
-rich values with it -/
-theorem finding_imageCell_negative_rv : (imageCellRel 1 (some 1) (fun _ => 1) (-1) 1).isPanic = true := by
+/-- regression witnesses of the two repaired defects: `vm="0"` and a negative rich value index are "not an image cell" -/
+theorem imageCell_regressions :
+    imageCellRel 0 (some 1) (fun _ => 1) 0 1 = .ok false ∧ imageCellRel 1 (some 1) (fun _ => 1) (-1) 1 = .ok false := by
   decide +kernel
 
 /-! ## non-vacuity -/
